@@ -83,11 +83,12 @@ CLAIMED = {
     "C19": dict(text="Theorems (coq/props/C19.v) about the ownership structure read off the source (node handles, edges, paths, result vectors and containers hold nodes "
                      "strongly; adjacency entries weakly): for every legal history no node value is released twice, none while any live object holds its node, a drop releases "
                      "exactly the nodes whose strong count reaches zero, and after all objects are dropped exactly the nodes ever held are released (cycles, self-loops, "
-                     "still-connected structures included); adjacency changes never affect ownership. Validated by drop-logging payloads on all four flavours after every step.",
+                     "still-connected structures included); adjacency changes never affect ownership; an Edge / Path / container owns the nodes it mentions (API layer of the model), "
+                     "any object keeps its nodes unreleased, container insert / remove release nothing. Validated by drop-logging payloads on all four flavours after every step.",
                 tech="Coq proof: invariant over ownership histories + differential correspondence with drop-counting node values", ref="DESIGN.md §5 C19"),
     "C20": dict(text="Theorems (coq/props/C20.v) for ARBITRARY heap-changing callbacks: every edge an edge loop or traversal yields is an entry of the current heap at that moment; "
                      "backtracking never panics; operations run from inside a closure keep the mirror invariant and never panic; an edge loop terminates once the closure stops "
-                     "lengthening the walked list and a traversal terminates when the closure adds neither nodes nor edges (fuel_bound suffices). That the implementation's "
+                     "lengthening the walked list; every search and ordering terminates once the closure stops adding edges and nodes (growth budget on the closure state, explicit fuel). That the implementation's "
                      "iterators hold no borrow/lock across the body is checked by the correspondence: every single operation injected at every invocation index of every loop "
                      "kind on small graphs, plus container operations / nested searches / comparisons / sizeof called from inside the closure, edge loops driven through five "
                      "consumers of the Iterator protocol (for, map+collect, extend, explicit next()+size_hint(), chain), all four flavours, RefCell panics / lock probe (guard gdsl_verif) / watchdog.",
